@@ -15,6 +15,7 @@ OBLIGATIONS = [
     "Pkgcore.C21.cfg_number_fresh_or_reused",
     "Pkgcore.C21.install_trigger_sound",
     "Pkgcore.C21.protected_never_overwritten",
+    "Pkgcore.C21.protected_never_overwritten_through_links",
     "Pkgcore.C21.update_written_beside",
     "Pkgcore.C21.uninstall_keeps_modified",
     "Pkgcore.C21.uninstall_removes_the_rest",
@@ -42,7 +43,8 @@ ASSUMPTIONS = [
     "complete engine runs use scratch roots with plain and unnormalised offsets. The theorems hold for every offset",
     "the package ships no ._cfgNNNN_ files and its entries have distinct locations (update_written_beside); pending update numbers stay below 9999",
 ]
-RULE = ("random scratch roots: env.d files (several, with skipped names) setting CONFIG_PROTECT / CONFIG_PROTECT_MASK / COLLISION_IGNORE (globs, directory entries, "
+RULE = ("[also: live roots on which up to three of the configuration directories (or /etc, /opt, /usr/share, /var/lib themselves) are symlinks to directories kept "
+        "elsewhere on the root while the image ships real directories; trees are read back the way path names reach them] random scratch roots: env.d files (several, with skipped names) setting CONFIG_PROTECT / CONFIG_PROTECT_MASK / COLLISION_IGNORE (globs, directory entries, "
         "suffix-lookalikes), live config files, pending ._cfgNNNN_ updates (identical, different, gaps, malformed names), package images with identical and differing "
         "replacements, install / replace / uninstall engines with the ebuild config-protect triggers registered, plain and unnormalised offsets; single operations on fresh "
         "roots and histories of 2-4 operations of this one process on one root with config files and env.d edited in between (env.d files rewritten in place, "
@@ -59,7 +61,7 @@ def valid_envd_name(x):
     return not (x.endswith((".bak", "~")) or x.startswith("._cfg") or len(x) <= 2 or not x[0:2].isdigit())
 
 
-def gen_case(rng, prev_envd=None, links=True):
+def gen_case(rng, prev_envd=None, links=True, dir_links=True):
     """one operation on a scratch root.  With `prev_envd` (the env.d files of the operation before, same root) the new settings are spread over exactly
     the same file names, so that going from one to the other rewrites existing env.d files in place and neither creates nor removes a directory entry"""
     mode = rng.choice(["install", "install", "install", "replace", "uninstall"])
@@ -138,9 +140,49 @@ def gen_case(rng, prev_envd=None, links=True):
             live.setdefault(f"{d}/._cfg{num}{sep}{other}", rng.choice([c, c, rng.choice(CONTENTS)]))
     # directories named by COLLISION_IGNORE entries
     live_dirs = [x.rstrip("/") for x in ignores if rng.random() < 0.6 and x.startswith("/") and "*" not in x and "?" not in x and not any(l == x.rstrip("/") for l in list(live) + list(image) + list(old))]   # never a directory where a file lives or arrives
-    return {"mode": mode, "envd": envd, "extra_protects": extra_protects, "extra_masks": extra_masks, "live": live, "live_dirs": live_dirs,
+    case = {"mode": mode, "envd": envd, "extra_protects": extra_protects, "extra_masks": extra_masks, "live": live, "live_dirs": live_dirs,
             "image": image, "old": old, "offset_style": rng.choice(["plain", "plain", "plain", "trailing", "dotted", "double"]),
             "plugins": rng.random() < 0.03}
+    if dir_links and rng.random() < 0.35:
+        case["dir_links"] = gen_dir_links(rng, [case])
+    return case
+
+
+# directories that may be symlinks on the live root (the admin keeps a configuration directory on another volume: /etc/app -> ../srv/store0), while the
+# package image ships them as real directories
+LINKABLE = ["/etc/app", "/etc/app", "/etc/app/conf.d", "/opt/cfg", "/opt/cfg", "/opt", "/usr/share/x", "/usr/share", "/var/lib/y", "/var/lib", "/etc/ign",
+            "/opt/cfg/sub", "/etc/w[0-9]", "/opt/c*g", "/opt/c*g/sub", "/etc"]
+STORES = ["/srv/store%d", "/srv/store%d", "/usr/local/store%d", "/srv/st%%ore [%d]"]
+
+
+def gen_dir_links(rng, steps):
+    """{directory of the root that is a symlink: the real directory (path in the root) it points to}; links are not nested and only directories
+    that some file of the case lives under are chosen"""
+    used = set()
+    for c in steps:
+        for p in list(c["live"]) + list(c["image"]) + list(c["old"]) + [d + "/x" for d in c["live_dirs"]]:
+            d = posixpath.dirname(p)
+            while d not in ("/", ""):
+                used.add(d)
+                d = posixpath.dirname(d)
+    files = set()
+    for c in steps:
+        files.update(c["live"], c["image"], c["old"])
+    def below(c, key, d):
+        return any(p.startswith(d + "/") for p in c[key])
+    # an unmerge works on what it finds on the live root where the package recorded something: a recorded directory that is a symlink there is taken
+    # for a symlink of the package and unlinked (unmerge semantics, C20) -- not the subject here.  So a directory is only made a link if every operation
+    # that has recorded entries below it also installs below it (the link then belongs to what is merged and stays).
+    cand = [d for d in LINKABLE if d in used and d not in files and all(below(c, "image", d) or not below(c, "old", d) for c in steps)]
+    rng.shuffle(cand)
+    links = {}
+    for d in cand:
+        if len(links) >= rng.choice([1, 1, 2, 3]):
+            break
+        if any(d == l or d.startswith(l + "/") or l.startswith(d + "/") for l in links):
+            continue
+        links[d] = rng.choice(STORES) % len(links)
+    return links
 
 
 def gen_history(rng):
@@ -150,7 +192,7 @@ def gen_history(rng):
     steps = []
     for i in range(rng.choice([2, 2, 3, 3, 4])):
         prev = steps[-1]["envd"] if steps and rng.random() < 0.7 else None
-        c = gen_case(rng, prev_envd=prev, links=False)
+        c = gen_case(rng, prev_envd=prev, links=False, dir_links=False)
         c["plugins"] = False
         if steps and rng.random() < 0.5:
             c["offset_style"] = steps[0]["offset_style"]
@@ -161,6 +203,11 @@ def gen_history(rng):
         files.update(c["live"], c["image"], c["old"])
     for c in steps:
         c["live_dirs"] = [d for d in c["live_dirs"] if d not in files]
+    if rng.random() < 0.3:
+        # the same directories are symlinks for the whole history
+        links = gen_dir_links(rng, steps)
+        for c in steps:
+            c["dir_links"] = dict(links)
     return {"steps": steps}
 
 
@@ -185,6 +232,15 @@ def C(mode, envd, live, image=None, old=None, **kw):
 
 
 CORPUS = [
+    # protected directories that are symlinks on the live root (kept on another volume); the image ships them as real directories
+    C("install", [], {"/etc/app/app.conf": "admin edit\n", "/etc/app/same.conf": "same\n"},
+      {"/etc/app/app.conf": ["f", "pkg v2\n"], "/etc/app/same.conf": ["f", "same\n"], "/etc/app/new.conf": ["f", "n\n"], "/usr/bin/app": ["f", "bin\n"]},
+      dir_links={"/etc/app": "/srv/store0"}),
+    C("replace", [("50local", {"CONFIG_PROTECT": ["/var/lib/y"]})], {"/var/lib/y/svc.ini": "admin ini\n", "/var/lib/y/._cfg0000_svc.ini": "pkg ini v1\n", "/var/lib/y/gone": "v1\n"},
+      {"/var/lib/y/svc.ini": ["f", "pkg ini v2\n"]}, old={"/var/lib/y/svc.ini": "pkg ini v1\n", "/var/lib/y/gone": "v1\n"}, dir_links={"/var/lib/y": "/srv/store0"}),
+    C("install", [("50x", {"CONFIG_PROTECT": ["/opt/cfg"], "CONFIG_PROTECT_MASK": ["/opt/cfg/sub"]})],
+      {"/opt/cfg/a": "old\n", "/opt/cfg/._cfg0003_a": "new\n", "/opt/cfg/sub/b": "old\n", "/etc/foo": "old\n"},
+      {"/opt/cfg/a": ["f", "new\n"], "/opt/cfg/sub/b": ["f", "new\n"], "/etc/foo": ["f", "new\n"]}, dir_links={"/opt": "/srv/store0", "/etc": "/usr/local/store1"}, offset_style="dotted"),
     C("install", [], {"/etc/wg[0].conf": "old\n", "/etc/._cfg0000_wg[0].conf": "pending\n", "/etc/._cfg0002_wg[0].conf": "new\n", "/etc/._cfg0001_wg0.conf": "neighbour\n"},
       {"/etc/wg[0].conf": ["f", "new\n"]}),
     C("install", [], {"/etc/a*b": "old\n", "/etc/._cfg0000_a*b": "p0\n", "/etc/._cfg0000_axb": "other file\n", "/etc/q?.conf": "old\n", "/etc/._cfg0003_q?.conf": "p3\n"},
@@ -297,23 +353,46 @@ def put(base, rel, data):
         f.write(data)
 
 
-def tree(root):
-    out = {}
-    for dp, dn, fn in os.walk(root):
-        for f in fn:
-            p = os.path.join(dp, f)
-            rel = p[len(root):]
-            if rel.startswith("/etc/env.d/") or rel in ("/etc/ld.so.conf", "/etc/ld.so.cache"):
+def walk_logical(root, links):
+    """(logical path, physical path, kind) of everything on the root, read the way a path name reaches it: the directory symlinks the case declares
+    (`links`: logical directory -> real directory it points to) are followed and what lies behind them is reported under the link's name; the real
+    directories themselves are not listed a second time.  kind: 'f' file, 'l' any other symlink, 'd' directory (real or declared link),
+    'x' a declared link that is no longer the symlink it was"""
+    stores = set(links.values())
+    out = []
+    stack = [("", root)]
+    while stack:
+        ldir, pdir = stack.pop()
+        for name in sorted(os.listdir(pdir)):
+            lp, pp = ldir + "/" + name, os.path.join(pdir, name)
+            if lp in stores and pdir == root + ldir:
                 continue
-            if os.path.islink(p):
-                out[rel] = ["l", os.readlink(p)]
+            if os.path.islink(pp):
+                if lp in links and os.path.realpath(pp) == os.path.realpath(root + links[lp]):
+                    out.append((lp, pp, "d"))
+                    stack.append((lp, root + links[lp]))
+                else:
+                    out.append((lp, pp, "l"))
+            elif os.path.isdir(pp):
+                out.append((lp, pp, "x" if lp in links else "d"))
+                stack.append((lp, pp))
             else:
-                with open(p, "r") as fh:
-                    out[rel] = ["f", fh.read()]
-        for dname in dn:
-            p = os.path.join(dp, dname)
-            if os.path.islink(p):
-                out[p[len(root):]] = ["l", os.readlink(p)]
+                out.append((lp, pp, "f"))
+    return out
+
+
+def tree(root, links=None):
+    out = {}
+    for rel, p, kind in walk_logical(root, links or {}):
+        if rel.startswith("/etc/env.d/") or rel in ("/etc/ld.so.conf", "/etc/ld.so.cache"):
+            continue
+        if kind == "l":
+            out[rel] = ["l", os.readlink(p)]
+        elif kind == "f":
+            with open(p, "r") as fh:
+                out[rel] = ["f", fh.read()]
+        elif kind == "x":
+            out[rel] = ["d", "a real directory now; it was a symlink to " + links[rel]]
     return out
 
 
@@ -358,14 +437,17 @@ def sync_envd(root, envd):
     return kinds
 
 
-def list_dirs(root):
-    out = []
-    for dp, dn, fn in os.walk(root):
-        for dname in dn:
-            p = os.path.join(dp, dname)
-            if not os.path.islink(p):
-                out.append(p[len(root):])
-    return sorted(out)
+def list_dirs(root, links=None):
+    return sorted(rel for rel, p, kind in walk_logical(root, links or {}) if kind in ("d", "x"))
+
+
+def make_dir_links(root, links):
+    """the declared directory symlinks (relative targets, valid under any offset) and the directories they point to"""
+    for l, t in links.items():
+        os.makedirs(root + t, exist_ok=True)
+        if not os.path.lexists(root + l):
+            os.makedirs(os.path.dirname(root + l), exist_ok=True)
+            os.symlink(posixpath.relpath(t, posixpath.dirname(l)), root + l)
 
 
 def run_steps(steps, scratch, mods):
@@ -377,6 +459,8 @@ def run_steps(steps, scratch, mods):
     out = []
     try:
         for i, case in enumerate(steps):
+            links = case.get("dir_links") or {}
+            make_dir_links(root, links)
             for p, c in case["live"].items():
                 put(root, p, c)
             for d in case["live_dirs"]:
@@ -384,10 +468,10 @@ def run_steps(steps, scratch, mods):
             edits = sync_envd(root, case["envd"])
             eff = case
             if i:
-                before = tree(root)
+                before = tree(root, links)
                 eff = dict(case)
                 eff["live"] = {p: v[1] for p, v in before.items() if v[0] == "f"}
-                eff["live_dirs"] = [d for d in list_dirs(root) if d != "/etc/env.d"]
+                eff["live_dirs"] = [d for d in list_dirs(root, links) if d != "/etc/env.d"]
             res = run_op(eff, base, root, i, mods)
             res["envd_edits"] = sorted(edits) if i else []
             out.append((eff, res))
@@ -449,7 +533,7 @@ def run_op(case, base, root, i, mods):
     for kind, msg in rec.lines:
         if "unhandled exception" in msg:
             res["exc"] = "a trigger raised and the engine suppressed it: " + msg.strip().splitlines()[-1]
-    res["tree"] = tree(root)
+    res["tree"] = tree(root, case.get("dir_links"))
     res["root"] = root
     return res
 
@@ -720,6 +804,12 @@ def run(ctx):
                 ctx.case(report, bool(numbering or notes["kept"]) and bool(notes["merged"] or notes["removed"]), key=repr(sorted((k, repr(v)) for k, v in c.items())))
                 ctx.count("mode_" + c["mode"])
                 ctx.count("offset_" + c["offset_style"])
+                if c.get("dir_links"):
+                    ctx.count("operations_on_roots_with_directory_symlinks")
+                    if any(p.startswith(l + "/") for p in numbering for l in c["dir_links"]):
+                        ctx.count("protected_files_reached_through_a_directory_symlink")
+                    if any(p.startswith(l + "/") for p in notes["merged"] for l in c["dir_links"]):
+                        ctx.count("files_merged_through_a_directory_symlink")
                 ctx.count("protected_files", len(numbering))
                 ctx.count("kept_at_unmerge", len(notes["kept"]))
                 if i:
